@@ -7,6 +7,8 @@
 import YashModel.Exec.Model
 import YashModel.Exec.Sexp
 import YashModel.Exec.Spec
+import YashModel.Exec.SearchDriver
+import YashModel.Exec.SearchEnv
 namespace YashModel.Exec
 
 def showOutcome (s : St) (r : Res) : String :=
@@ -14,8 +16,30 @@ def showOutcome (s : St) (r : Res) : String :=
   | .outOfFuel => s!"FUEL trace={showTrace s.trace}"
   | _ => s!"trace={showTrace s.trace} status={s.status}"
 
-def runLine (line : String) : String :=
+def Frame.letter : Frame → Char
+  | .loop => 'L' | .subshell => 'S' | .condition => 'C' | .builtin _ => 'B'
+  | .dotScript => 'D' | .trap => 'T' | .initFile => 'I'
+
+/-- the state the shell is left in, as `prog.rs::end_state` prints it from the real `Env`: option
+    flags, number of positional parameters, functions (`!` = read-only) and tick counters in sorted
+    order, and the frames still on the stack (bottom first) -/
+def showEnd (s : St) : String :=
+  let b (x : Bool) : String := if x then "1" else "0"
+  let fns := (s.funcs.map fun p =>
+    String.ofList (nameStr p.1) ++ (if s.roFuncs.contains p.1 then "!" else "")).mergeSort (fun a b => decide (a ≤ b))
+  let ts := (s.counters.mergeSort (fun a b => decide (a.1 ≤ b.1))).map fun (c, v) => s!"{c}:{v}"
+  s!"e{b s.errexit}m{b s.monitor}p{b s.pipefail}#{s.params};fn={",".intercalate fns};t={",".intercalate ts};" ++
+    s!"stk={String.ofList (s.stack.reverse.map Frame.letter)}"
+
+def showOutcomeWith (full : Bool) (s : St) (r : Res) : String :=
+  match r with
+  | .outOfFuel => showOutcome s r
+  | _ => if full then showOutcome s r ++ " end=" ++ showEnd s else showOutcome s r
+
+/-- `full`: also print the final state (C02's driver; C10's compares trace and status only) -/
+def runLineWith (full : Bool) (line : String) : String :=
   match tokenize line with
+  | "search" :: _ => Search.runLine ((line.splitOn " ").drop 1)
   | _seed :: toks =>
     match parseSx toks with
     | some (sx, []) =>
@@ -26,9 +50,13 @@ def runLine (line : String) : String :=
         let (s', r') := specShell 100000 {} script
         let spec := match r' with
           | .outOfFuel => "-"
-          | _ => "=" ++ showOutcome s' r'
-        showOutcome s r ++ "\t" ++ spec
+          | _ => "=" ++ showOutcomeWith full s' r'
+        showOutcomeWith full s r ++ "\t" ++ spec
     | _ => "bad-case\t-"
   | [] => "bad-case\t-"
+
+def runLine (line : String) : String := runLineWith false line
+
+def runLineFull (line : String) : String := runLineWith true line
 
 end YashModel.Exec
